@@ -100,7 +100,11 @@ def specs(draw, lower_titles=True, steering=True):
         opts = TITLES[kind]
         if not lower_titles:
             opts = [o for o in opts if not o[1].islower()]
-        return draw(st.sampled_from(opts))
+        ttl = draw(st.sampled_from(opts))
+        if draw(st.integers(0, 7)) == 0:
+            # an indented title line is still the title of its section (reader: title lines are recognised after stripping)
+            ttl = draw(st.sampled_from([" ", "  ", "\t"])) + ttl
+        return ttl
 
     ncurves = draw(st.integers(0, 4))
     nrows = draw(st.sampled_from([0, 1, 2, 3, 3]))
